@@ -162,7 +162,7 @@ def normalise_calls(calls: List[Any]) -> List[str]:
 # ---------------------------------------------------------------------------------------------------
 # model comparison (C02 / C03 / C11-C13 share it)
 
-LEAK_MARKERS = ('Zq7_marker_', 'Traceback', 'Xq9Error', 'world.py', 'probe misuse')
+LEAK_MARKERS = ('Zq7_marker_', 'Traceback', 'Xq9Error', 'Xq9Timeout', 'world.py', 'probe misuse', 'timeout', 'Timeout')
 
 
 def compare(o: Obs, exp: 'model.Expected', doc_in: Any) -> List[Tuple[str, str]]:
